@@ -37,7 +37,7 @@ def gen_value(rng, decl, carrier):
         return rng.randint(-999, 9999)
     if carrier == 'U':
         return rng.choice(['A', 'B', 'CA', 'XY', 'Q'])
-    if carrier in ('npscalar', 'npscalar32'):
+    if carrier in ('npscalar', 'npscalar32', 'npscalar_tail'):
         if 'INT' in u: return rng.randint(-99, 999)
         if u in ('REAL', 'FLOAT', 'DOUBLE'): return rng.randint(-800, 800) * 0.125
         return rng.choice([rng.randint(0, 9), rng.randint(-80, 80) * 0.125]) if carrier == 'npscalar32' else rng.choice(['Z', 'CB', rng.randint(0, 9)])
@@ -53,7 +53,7 @@ def gen_value(rng, decl, carrier):
 
 def carrier_for(rng, decls):
     us = [d.upper() for d in decls]
-    opts = ['list', 'list', 'list', 'npscalar', 'tuple_rows']
+    opts = ['list', 'list', 'list', 'npscalar', 'tuple_rows', 'npscalar_tail']
     if all(u in ('REAL', 'FLOAT', 'DOUBLE') for u in us): opts += ['f64', 'f64', 'f32', 'f32', 'i64', 'npscalar32']
     if all('INT' in u for u in us): opts += ['i64', 'i64', 'i32', 'f64', 'npscalar32']
     if all(u in ('TEXT', 'VARCHAR') for u in us): opts += ['U']
@@ -121,7 +121,9 @@ class HistGen:
             val = rng.choice([0, 0, 1, 2.5, -0.125, 'high', 'positive', '7', None, 1e3, 'a b', 100])
             if tn in self.cols and not any(c.lower() == name.lower() for c, _ in cols) and name.isidentifier() and name.lower() not in ('rowid',) and shown != 'nosuch':
                 self.cols[tn] = cols + [(name, ct)]
-            return ['add_column', name, ct, val, shown]
+            car = rng.choice([None, None, 'npscalar', 'npscalar32']) if isinstance(val, (int, float, str)) and val not in (1e3,) else None
+            if car == 'npscalar32' and isinstance(val, str): car = 'npscalar'
+            return ['add_column', name, ct, val, shown, car]
         if r < 0.80:
             return ['translate', [rng.randint(-40, 40) * 0.125 for _ in range(3)], shown, self.kw(tn, 1)]
         if r < 0.88:
@@ -246,6 +248,7 @@ def explore(ctx, tier, rng, search=False):
         chains = rng.choice([('A', 'B'), ('A',), ('X', 'B', '1'), ('b', 'a'), ('1', 'A'), ('A', '2', 'B'), ('0', 'B', 'A')])
         structs = [G.gen_atoms(rng, n, chains=chains)]
         case = {'structs': structs}
+        if rng.random() < 0.3: case['rowid_carrier'] = rng.choice(['i64', 'i32', 'intp'])
         r = rng.random()
         if r < 0.25:
             structs.append(G.gen_atoms(rng, rng.randint(1, 20), serial0=300))
